@@ -499,7 +499,8 @@ def validate_spline_hypotheses(ctx, rng, report):
     worst = {"knots": 0.0, "linear": 0.0, "deriv": 0.0}
     for _ in range(6):
         n = rng.randint(4, 7)
-        x = np.array(sorted(rng.sample([0.0, 2.0 ** -30, 0.125, 0.25, 0.5, 0.75, 1.0, 1.5, 2.0, 3.0, 4.0], n)))
+        x = np.array(sorted(rng.sample([0.125, 0.25, 0.5, 0.75, 1.0, 1.5, 2.0, 3.0, 4.0], n)))
+        x[0] = rng.choice([0.0, 2.0 ** -30, x[0]])     # the radial grids used below start at 0, 2^-30 or a regular node
         y1 = np.array([rng.randint(-5, 5) for _ in range(n)], dtype=float)
         y2 = np.array([rng.randint(-5, 5) for _ in range(n)], dtype=float)
         a = rng.randint(-3, 3) / 2.0
